@@ -61,7 +61,7 @@ def main(prop):
     ck.assumptions = ["valid rGFA: unique ids, non-empty segments, segments of one stable sequence disjoint, rank-0 sequences tiled from 0",
                       "'+'-strand walk records over nodes of the graph with offsets inside the path; stable inputs are bare rank-0 contigs (either strand) or '+' interval lists tiled by segments"]
     ck.canon = ["lines compared as text"]
-    mods = {"C01": ["Gaftools.Props.C01a", "Gaftools.Props.C01b", "Gaftools.Props.C03s", "Gaftools.Props.TieA", "Gaftools.Props.TieA4", "Gaftools.Props.TieA10", "Gaftools.Props.TieA11", "Gaftools.Props.Glue", "Gaftools.Props.Reflect"], "C02": ["Gaftools.Props.C02", "Gaftools.Props.TieA22", "Gaftools.Props.TieA", "Gaftools.Props.TieA4", "Gaftools.Props.TieA10", "Gaftools.Props.TieA11", "Gaftools.Props.Glue", "Gaftools.Props.Reflect"]}[prop]
+    mods = {"C01": ["Gaftools.Props.C01a", "Gaftools.Props.C01b", "Gaftools.Props.C03s", "Gaftools.Props.TieA", "Gaftools.Props.TieA4", "Gaftools.Props.TieA10", "Gaftools.Props.TieA11", "Gaftools.Props.TieA27", "Gaftools.Props.Glue", "Gaftools.Props.Reflect"], "C02": ["Gaftools.Props.C02", "Gaftools.Props.TieA22", "Gaftools.Props.TieA", "Gaftools.Props.TieA4", "Gaftools.Props.TieA10", "Gaftools.Props.TieA11", "Gaftools.Props.Glue", "Gaftools.Props.Reflect"]}[prop]
     from core import LEAN
     mods = [m for m in mods if os.path.exists(os.path.join(LEAN, *m.split(".")) + ".lean")]
     ck.lean_build(mods)
